@@ -1,5 +1,6 @@
 """C05 - operator chains -> graph -> MPO (structural part)."""
 import ast
+from ..defuse import before as _before
 
 from ..loader import norm, AnalysisError
 from ..taint import Taint
@@ -259,7 +260,7 @@ def rule_R3(chk, repo, rid='C05.R3'):
             def appends(stmts):
                 return [c_ for s_ in stmts for c_ in ast.walk(s_) if isinstance(c_, ast.Call) and
                         isinstance(c_.func, ast.Attribute) and c_.func.attr == 'append' and norm(c_.func.value) == X]
-            before_loop = [s_ for s_ in fi.node.body if s_.lineno < loop.lineno]
+            before_loop = [s_ for s_ in fi.node.body if _before(fi.node, s_, loop)]
             n0 = len(appends(before_loop))
             for s_ in before_loop:
                 if isinstance(s_, ast.Assign) and norm(s_.targets[0]) == X and isinstance(s_.value, ast.List):
@@ -303,11 +304,16 @@ def rule_R3(chk, repo, rid='C05.R3'):
     start_ok = False
     for n in ast.walk(fi.node):
         if isinstance(n, ast.Assign) and any(isinstance(t, ast.Name) and t.id == lvar for t in n.targets) and \
-                ts.literal_int(n.value) == 1 and n.lineno < loop.lineno:
+                ts.literal_int(n.value) == 1 and _before(fi.node, n, loop):
             init_ok = True
         if isinstance(n, ast.Assign) and any(isinstance(t, ast.Subscript) and norm(t.value) == 'nid_map' and
                                              'nid_terminal[0]' in norm(t.slice) for t in n.targets):
             start_ok = norm(n.value) == '(0, 0)'
+        if isinstance(n, ast.Assign) and norm(n.targets[0]) == 'nid_map' and isinstance(n.value, ast.Dict) and \
+                len(n.value.keys) == 1 and n.value.keys[0] is not None and 'nid_terminal[0]' in norm(n.value.keys[0]) and \
+                _before(fi.node, n, loop):
+            # the table is created holding the start node
+            start_ok = norm(n.value.values[0]) == '(0, 0)'
     chk.ob(rid, where(repo, fi, fi.node), f'`{lvar}` starts at 1 (bond 0 holds the start node)', init_ok, '',
            key=f'{rid}|{fi.qual}|counter-init')
     chk.ob(rid, where(repo, fi, fi.node), 'start node is mapped to (0, 0)', start_ok, '',
